@@ -66,15 +66,16 @@ theorem C02_total_iff (cif : WCif) (hok : containersOk cif) (hcl : containersCle
         rw [List.all_eq_true] at h
         rw [h k hk1] at hk2; cases hk2
 
-/-- **C02_refused_key_unwritable** — the keys `write_table` refuses are EXACTLY the keys that cannot be written as a quoted or
-    triple-quoted string with their colon within the line limit (`keyWritable`: the specification side, written from the grammar —
-    no CR; one line with a free kind of quote and `length + 3 ≤ 2048`, or triple-quotable with `length + 7 ≤ 2048`; several lines,
-    none over-long, first line + 3 ≤ 2048, last line + 4 ≤ 2048, triple-quotable).  (Before the repair of F-key-first-line a
-    multi-line key whose first line had exactly 2045 units was refused although writable.) -/
+/-- `C02_refused_key_unwritable` — NOT a property theorem (review rB; not in REQUIRED): `keyWritable` is the writer's own criterion
+    `keyFits` spelled with the colon's column explicit, not a specification written from the lexical grammar, so this equation holds by
+    unfolding and does not show that "exactly the keys that cannot be written are refused".  What IS proved about refusals:
+    `C02_key_refused_iff` / `C02_total_iff` (the refused keys are exactly those with `keyPresented = false`), and the regression
+    instance below (the 2045-unit first line is accepted since the repair of F-key-first-line).  Open: `keyPresented key ↔ ∃ p ∈
+    {squote, dquote, tsquote, tdquote}, Spec.Lexical.admissible .cif2 p key ∧ the rendered key and its colon keep every line within
+    2048` for keys of CIF 2.0 characters. -/
 theorem C02_refused_key_unwritable (key : Str) : keyPresented key = keyWritable key := keyPresented_eq_writable key
 
-/-- the keys `write_table` presents are keys the CIF 2.0 syntax and the line limit admit: the writer never emits a key it should
-    have refused -/
+/-- (same caveat: `keyWritable` is the writer's criterion restated, not an independent specification; not in REQUIRED) -/
 theorem C02_presented_key_writable (key : Str) (h : keyPresented key = true) : keyWritable key = true := by
   rw [← C02_refused_key_unwritable]; exact h
 
